@@ -583,6 +583,14 @@ func c14Build(c c14StructCase) c14Case {
 		out.Text = hdr("m") + "container c { leaf a { type string; } } leaf r { type leafref { path \"" + []string{"../c", "/c", "/m:c", "../c/", "..", "../..", "/", "", "../r", "../nothere", "../c/a/b", "/c/a/../..", "../c[a='x']/a", "c"}[c.V%14] + "\"; } } }"
 	case "leafref-to-list":
 		out.Text = hdr("m") + "list l { key k; leaf k { type string; } } leaf-list ll { type string; } leaf r { type leafref { path \"" + []string{"../l", "../l/k", "../ll", "/l/k", "../l[k=current()/../r]/k"}[c.V%5] + "\"; } } }"
+	case "leafref-into-import":
+		// the leaf pointed at lives in an imported module, whose own leaves the loader has no other reason to look at
+		tgt := []string{"leaf x { type string; }", "leaf x { description \"no type\"; }", "leaf x { type nothere; }", "leaf x { type leafref { path \"../y\"; } } leaf y { type int8; }",
+			"leaf x { type leafref { path \"../nothere\"; } }", "leaf x { type t; } typedef t { type t; }", "leaf x { type union { } }", "leaf-list x { type string; }", "container x { }",
+			"leaf x { type leafref { path \"/m:r\"; } }", "leaf x { type enumeration { } }", "leaf x { type identityref { base nothere; } }"}[c.V%12]
+		path := []string{"/b:x", "/b:x", "/b:x", "/x", "/b:nothere", "/q:x"}[c.N%6]
+		out.Text = hdr("m") + "import b { prefix b; } leaf r { type leafref { path \"" + path + "\"; } } }"
+		out.Files["b.yang"] = hdr("b") + tgt + " }"
 	case "augment-bad-target":
 		tg := []string{"/nothere", "/c/x", "/c/nothere", "c", "", "/", "/c/ch/x", "/r", "/r/input", "/n", "/m:c", "/bad:c", "//", "/c//x", "/c/"}[c.V%15]
 		out.Text = hdr("m") + "container c { leaf x { type string; } choice ch { leaf y { type string; } } } rpc r { input { leaf i { type string; } } } notification n { leaf z { type string; } } augment \"" + tg + "\" { leaf added { type string; } } }"
@@ -672,7 +680,7 @@ func c14Build(c c14StructCase) c14Case {
 var c14Shapes = []string{"include-cycle-nodata", "import-misnamed-cycle", "disabled-uses-cycle", "nest-container", "nest-list", "nest-choice", "nest-grouping", "nest-open", "nest-close", "nest-union", "nest-ext", "ext-args", "ext-args-str", "concat", "concat-dangling",
 	"many-siblings", "dup-siblings", "dup-statements", "dup-header", "unterminated-dquote", "unterminated-squote", "unterminated-comment", "line-comment-eof", "line-comment-only", "backslash-eof",
 	"typedef-cycle", "grouping-cycle", "grouping-cycle-unused", "identity-cycle", "leafref-cycle", "union-self", "import-self", "import-mutual", "import-chain-cycle", "include-self", "include-mutual",
-	"include-module", "import-submodule", "import-garbage", "import-missing", "include-missing", "import-readerr", "include-readerr", "serve-same", "leafref-to-container", "leafref-to-list",
+	"include-module", "import-submodule", "import-garbage", "import-missing", "include-missing", "import-readerr", "include-readerr", "serve-same", "leafref-to-container", "leafref-to-list", "leafref-into-import",
 	"augment-bad-target", "refine-bad-target", "refine-wrong-kind", "deviation", "default-twice", "key-missing", "unique-bad", "type-unknown", "uses-unknown", "base-unknown", "range-garbage",
 	"pattern-garbage", "enum-garbage", "bits-garbage", "default-mismatch", "feature-garbage", "submodule-top", "rpc-shapes", "when-garbage", "empty-bodies", "long-ident", "long-token-run", "no-module"}
 
